@@ -86,7 +86,7 @@ CHECKS.update({
              "freedom of the real thing: race-detector builds of the binary (more tokens than checkers, no recorder) and of the "
              "analyzer under the x/tools driver with parallel passes, repeated.",
         design_ref="DESIGN.md section 6 C04, Appendix A.6, A.3",
-        note="Hooks add no synchronisation when no recorder is installed; race freedom rests on the detector's window and on C05. FanOut and Analyzer also carry liveness properties (LiveSpec: Terminates, EveryFilePrinted, AllReturn) with their own what-ifs; badCond's reversed loops are always in the race workspace.",
+        note="Hooks add no synchronisation when no recorder is installed; race freedom rests on the detector's window and on C05. FanOut and Analyzer also carry liveness properties (LiveSpec: Terminates, EveryFilePrinted, AllReturn) with their own what-ifs; badCond's reversed loops are always in the race workspace. Every example directory also runs as twin packages under the race detector (quick tier: every sixth, rotated by VERIF_SEED); `vh sharing` constructs every checker twice on separate contexts and reports an object reachable from both instances that changes while one instance works.",
         technique="TLC over all interleavings + trace validation of recorded concurrent runs + race detector",
         engine="fanout"),
     "C08": dict(
